@@ -57,6 +57,8 @@ def init_pool(model):
 
 
 def run(ctx):
+    from xfabsa import numeric as _N
+    _N.alias_rule(ctx, 'C05', ['xfab/tools.py', 'xfab/laue.py', 'xfab/sg.py'])
     ctx.rule("syscond", "slot model x syscond x permutation schedule == extinction by the tabulated operators, on every cone point in the box")
     ctx.rule("earlyexit", "cone apex/generators pairwise non-obtuse in every conforming reciprocal metric")
     ctx.rule("expand", "genhkl_all: Rots = rot[:nuniq] and negatives, dot(hkl_row, R), stl copied, unique() de-duplication")
